@@ -154,10 +154,58 @@ def rule_hdrpred(ctx):
         ctx.ok(rid, "resets_canvas|table", "%d rows agree with the definition" % n, nontrivial=True, fn=rc)
 
 
+def rule_bitbuf(ctx):
+    rid = "R-BITBUF"
+    ctx.rule(rid, "bit-reader invariant: `buf` holds look-ahead bits of the bytes immediately before `bytes`; outside refill/refill_slow, "
+                  "every store that advances `Bitstream.bytes` is preceded on all paths by `buf = 0` (and `remaining_buf_bits = 0`), "
+                  "otherwise stale look-ahead bits are OR-ed into the fields read after a long skip (extension payloads)")
+    from ..facts import place_fields, op_const_int
+    from ..mirutil import find_path_edges
+    bs = ctx.prog.crate("jxl_bitstream")
+    ADT = "jxl_bitstream::bitstream::Bitstream"
+    n = 0
+    for f in bs.fn_list:
+        if f.kind != "AssocFn" or not f.path.startswith("jxl_bitstream::bitstream::Bitstream::<'_>::"):
+            continue
+        short = f.path.split("::")[-1]
+        if short in ("refill", "refill_slow", "new"):
+            continue
+        stores = {"bytes": [], "buf0": [], "rem0": []}
+        for b, blk in enumerate(f.blocks):
+            if f.is_cleanup(b):
+                continue
+            for st in blk[0]:
+                if st[0] != "=":
+                    continue
+                pf = place_fields(st[1])
+                if not pf or pf[-1][1] != ADT:
+                    continue
+                if pf[-1][0] == "bytes":
+                    stores["bytes"].append((b, st))
+                if pf[-1][0] == "buf" and st[2][0] == "use" and op_const_int(st[2][1]) == 0:
+                    stores["buf0"].append(b)
+                if pf[-1][0] == "remaining_buf_bits" and st[2][0] == "use" and op_const_int(st[2][1]) == 0:
+                    stores["rem0"].append(b)
+        for b, st in stores["bytes"]:
+            n += 1
+            ctx.count(rid + ".bytes-stores")
+            ctx.seen(f)
+            for what, blocks in (("buf", stores["buf0"]), ("remaining_buf_bits", stores["rem0"])):
+                p = find_path_edges(f, [0], lambda x: x == b, avoid_block=lambda x: x in blocks) if (0 not in blocks and b not in blocks) else None
+                if p is None and blocks:
+                    ctx.ok(rid, "%s|%s-cleared-before-skip" % (short, what), "every path to the `bytes` store passes `%s = 0`" % what, nontrivial=True, fn=f)
+                else:
+                    ctx.bad(rid, "%s|%s-not-cleared-before-skip" % (short, what),
+                            "Bitstream::%s advances `bytes` without first clearing `%s` on every path: look-ahead bits of the skipped region leak "
+                            "into the next reads" % (short, what), fn=f, pos=st[3], path=p)
+    ctx.floor(rid + ".bytes-stores", 1)
+
+
 def main(pid, tier, repo=None):
     ctx = Ctx(pid, tier, configs=("workspace",), repo=repo)
     rule_bitspec(ctx)
     rule_hdrpred(ctx)
+    rule_bitbuf(ctx)
     ctx.not_decided("the primitive readers' own arithmetic (U64 continuation, F16 conversion), derived values other than the canvas predicates, "
                     "and that reported accessor values equal the parsed fields")
     return ctx.finish(
